@@ -236,6 +236,77 @@ func scriptedScenarios() []scenario {
 			}
 			return tag + " OK done\r\n"
 		}},
+		{name: "scripted-mass-expunge-slow-consumer", run: func(x *ctx) {
+			// 300 EXPUNGE responses for one command; the consumer takes them one by one and calls
+			// accessors of the client in between (nothing forbids it); then a second one is left to Close
+			login(x)
+			ex := x.c.Expunge()
+			r := x.issue("EXPUNGE")
+			x.wait(r, "Expunge.Next+State", func() error {
+				for i := 0; i < 20; i++ {
+					if n := ex.Next(); n == 0 {
+						break
+					}
+					_ = x.c.State()
+					if mb := x.c.Mailbox(); mb != nil {
+						_ = mb.NumMessages
+					}
+				}
+				return ex.Close()
+			})
+			ex2 := x.c.UIDExpunge(imap.UIDSetNum(1))
+			r = x.issue("UID EXPUNGE")
+			x.block("Mailbox()", func() { _ = x.c.Mailbox() })
+			x.wait(r, "Expunge.Close", ex2.Close)
+			r = x.issue("LOGOUT")
+			x.wait(r, "Logout.Wait", x.c.Logout().Wait)
+		}, peer: func(tag, name, line string) string {
+			switch name {
+			case "SELECT":
+				return "* 700 EXISTS\r\n* FLAGS (\\Seen)\r\n* OK [UIDVALIDITY 1] ok\r\n" + tag + " OK [READ-WRITE] done\r\n"
+			case "EXPUNGE", "UID EXPUNGE":
+				return strings.Repeat("* 1 EXPUNGE\r\n", 300) + tag + " OK expunged\r\n"
+			case "LOGOUT":
+				return "* BYE\r\n" + tag + " OK\r\n"
+			}
+			return tag + " OK\r\n"
+		}},
+		{name: "scripted-binary-sections-unread", run: func(x *ctx) {
+			// BINARY[] data (literal8, plain literal, quoted) that the caller skips or only starts reading
+			login(x)
+			bin := &imap.FetchItemBinarySection{Part: []int{1}}
+			f := x.c.Fetch(imap.SeqSetNum(1, 2, 3), &imap.FetchOptions{Flags: true, BinarySection: []*imap.FetchItemBinarySection{bin}})
+			r := x.issue("FETCH")
+			x.wait(r, "Fetch.Next(skip binary)+Close", func() error {
+				if m := f.Next(); m != nil {
+					m.Next() // the first item; the rest (incl. unread literals) is skipped
+				}
+				if m := f.Next(); m != nil {
+					for it := m.Next(); it != nil; it = m.Next() {
+						if b, ok := it.(imapclient.FetchItemDataBinarySection); ok && b.Literal != nil {
+							buf := make([]byte, 3)
+							b.Literal.Read(buf) // start reading, never finish
+						}
+					}
+				}
+				return f.Close()
+			})
+			f2 := x.c.Fetch(imap.SeqSetNum(1), &imap.FetchOptions{BinarySection: []*imap.FetchItemBinarySection{bin}})
+			r = x.issue("FETCH")
+			x.wait(r, "Fetch.Collect", func() error { _, err := f2.Collect(); return err })
+			r = x.issue("LOGOUT")
+			x.wait(r, "Logout.Wait", x.c.Logout().Wait)
+		}, peer: func(tag, name, line string) string {
+			switch name {
+			case "SELECT":
+				return selectResp(tag)
+			case "FETCH":
+				return "* 1 FETCH (BINARY[1] ~{11}\r\nhello\x00world FLAGS (\\Seen))\r\n* 2 FETCH (FLAGS () BINARY[1] {26}\r\nabcdefghijklmnopqrstuvwxyz)\r\n* 3 FETCH (BINARY[1] \"quoted\" FLAGS (\\Deleted))\r\n" + tag + " OK fetched\r\n"
+			case "LOGOUT":
+				return "* BYE\r\n" + tag + " OK\r\n"
+			}
+			return tag + " OK\r\n"
+		}},
 		{name: "scripted-odd-but-valid-responses", run: func(x *ctx) {
 			login(x)
 			l := x.c.List("", "*", &imap.ListOptions{ReturnStatus: &imap.StatusOptions{NumMessages: true}})
@@ -872,7 +943,7 @@ func main() {
 	hx.Main(hx.Spec{
 		ID:    "C10",
 		Level: "fault_enumeration",
-		Rule:  "fault points = for each of 14 client scenarios (all commands incl. sync literals, IDLE, AUTHENTICATE with and without initial response, STARTTLS, pipelining, streaming FETCH with partially consumed literals) 12 recorded live against the real server + in-memory backend and 2 against a scripted server emitting unusual but valid transcripts (40..70 data items per FETCH response, unilateral data, zero-length literals, responses without text): every server->client byte offset x {EOF, read error, stall} and every client->server offset x {write error} (long literal bodies thinned to every 5th offset; quick: every offset of 5 scenarios, every 7th of the rest); each fault point is a distinct case",
+		Rule:  "fault points = for each of 14 client scenarios (all commands incl. sync literals, IDLE, AUTHENTICATE with and without initial response, STARTTLS, pipelining, streaming FETCH with partially consumed literals) 12 recorded live against the real server + in-memory backend and 5 against a scripted server emitting unusual but valid transcripts (40..70 data items per FETCH response, unilateral data, zero-length literals, responses without text, 300 EXPUNGE responses taken one by one by a consumer that calls State()/Mailbox() in between, BINARY sections as literal8 / literal / quoted string that the caller skips or leaves half read): every server->client byte offset x {EOF, read error, stall} and every client->server offset x {write error} (long literal bodies thinned to every 5th offset; quick: every offset of 5 scenarios, every 7th of the rest); each fault point is a distinct case",
 		Assumptions: []string{
 			"after the fault every I/O completes at once: errors immediately, a stalled read times out immediately when a read deadline is set (virtual time); a stalled read without deadline is ended by the harness calling Client.Close once the client is parked in it",
 			"the 45 s / 30 s backstops are orders of magnitude above the observed run time (milliseconds)",
